@@ -27,8 +27,16 @@ def binary_for(out, default_binary, features):
     return _feature_binaries[key]
 
 
-def run_streams(out, mod, binary, tier, seed, only_request=None):
+def run_streams(out, mod, binary, tier, seed, only_request=None, scale=1.0, deadline=None, stop_on_oracle=False):
     for st in mod.streams(tier, seed):
+        if deadline is not None and time.time() > deadline:
+            out.notes.append("search stopped at its time limit before stream " + st["name"])
+            break
+        if stop_on_oracle and out.oracle_failures:
+            break
+        if scale != 1.0 and st["stream"] not in ("graph-exhaustive", "graph-slice", "disasm"):
+            st = dict(st)
+            st["count"] = max(1, int(st["count"] * scale))
         t0 = time.time()
         try:
             b = binary_for(out, binary, st.get("features"))
@@ -129,7 +137,10 @@ def run_property(prop, tier, seed, replay=None):
             # search for a concrete failing input with the thorough budget
             fw.log("obligation or correspondence broken: searching with the thorough budget")
             out.notes.append("escalated to thorough budget after a broken obligation")
-            run_streams(out, mod, binary, "thorough", seed + 1)
+            # (a fifth of the thorough counts, stream by stream, stopping at the first failing input or after
+            # VERIF_SEARCH_SECS, default 600 s: the quick check stays a check one can run on every change)
+            limit = float(os.environ.get("VERIF_SEARCH_SECS", "600"))
+            run_streams(out, mod, binary, "thorough", seed + 1, scale=0.2, deadline=time.time() + limit, stop_on_oracle=True)
     checker = "cd lean && lake build %s && lake env lean <#print axioms>; ./check %s --tier %s" % (
         " ".join(mod.THEOREM_MODULES), prop, tier)
     return fw.finish(out, mod.RULE, checker, getattr(mod, "EXTRA_COVERAGE", None))
